@@ -37,12 +37,14 @@ CHECKS = {
         text='Theorems in coq/Props/C08.v: the normalised six Gaussian draws have unit norm and the joint density of the draws depends only on '
              'their sum of squares, hence is invariant under every rotation of the sqrt2-weighted six-vector space (uniformity on the '
              '6-sphere); for every pair of non-parallel vector draws the three axes are orthonormal; the assembled six-vector has unit '
-             'norm and, as a tensor, exactly the prescribed eigenvalues on those axes (double-couple, CLVD, any pattern). All for every '
-             'value of the draws, i.e. every state of the generator. The unit tests check shape and norm of one draw.',
+             'norm and, as a tensor, exactly the prescribed eigenvalues on those axes (double-couple, CLVD, any pattern), also as one '
+             'composed statement about a whole sample; the axes commute with every proper rotation applied to both vector draws (nsatz, '
+             'no hypothesis on the draws) and the joint density of those draws is unchanged by it, so the law of the orientation is '
+             'rotation invariant. All for every value of the draws, i.e. every state of the generator. The unit tests check shape and norm of one draw.',
         note=AX_R + 'the model is hand-written and tied by correspondence only: every returned sample must equal bit for bit the model on the '
              'draws of its own column (this also shows that samples use independent draws). The step from a rotation-invariant density '
-             'to the law of the normalised vector, and from an isotropic frame to uniform orientation, is the standard argument and is '
-             'not formalised measure-theoretically; numpy.random is trusted; distributions are additionally sampled (7-sigma bands); '
+             'to the law of the normalised vector, and from a rotation-invariant law of the frame to the uniform (Haar) one, is the standard argument and is '
+             'not formalised measure-theoretically; the equivariance theorem is also run on the real generators (recorded draws turned by a random rotation must turn the returned tensor); numpy.random is trusted; distributions are additionally sampled (7-sigma bands); '
              'consecutive calls must not repeat a sample, results held across later calls must not change, the events of a joint draw differ. '
              'The compiled generators are unavailable (C20).',
         design='6 C08'),
